@@ -1,0 +1,119 @@
+//go:build verif
+
+// Package verifhook holds the observation and fault-injection points used by the external
+// verification harness. It is compiled only with the build tag `verif`; without the tag every
+// function is an empty stub (see stub.go).
+package verifhook
+
+import (
+	"sync"
+	"sync/atomic"
+)
+
+var (
+	mu       sync.RWMutex
+	points   = map[string]func(){}
+	anyPoint func(name string)
+	counters sync.Map // name -> *uint64
+
+	mutFn   atomic.Pointer[func(kind, key string, n int)]
+	faultFn atomic.Pointer[func(path string, p []byte) (int, error, bool)]
+	freeFn  atomic.Pointer[func(root string, real uint64) uint64]
+)
+
+// SetPoint installs (or, with nil, removes) the callback run when Point(name) is reached.
+func SetPoint(name string, f func()) {
+	mu.Lock()
+	defer mu.Unlock()
+	if f == nil {
+		delete(points, name)
+		return
+	}
+	points[name] = f
+}
+
+// SetAnyPoint installs a callback run at every Point (after the specific one).
+func SetAnyPoint(f func(name string)) {
+	mu.Lock()
+	defer mu.Unlock()
+	anyPoint = f
+}
+
+// Point is an observation / yield point.
+func Point(name string) {
+	mu.RLock()
+	f, g := points[name], anyPoint
+	mu.RUnlock()
+	if f != nil {
+		f()
+	}
+	if g != nil {
+		g(name)
+	}
+}
+
+// Count increments the named counter.
+func Count(name string) {
+	c, _ := counters.LoadOrStore(name, new(uint64))
+	atomic.AddUint64(c.(*uint64), 1)
+}
+
+// Counter returns the value of the named counter.
+func Counter(name string) uint64 {
+	c, ok := counters.Load(name)
+	if !ok {
+		return 0
+	}
+	return atomic.LoadUint64(c.(*uint64))
+}
+
+// SetMut installs the callback run before every persistent-state mutation.
+func SetMut(f func(kind, key string, n int)) {
+	if f == nil {
+		mutFn.Store(nil)
+		return
+	}
+	mutFn.Store(&f)
+}
+
+// Mut is called immediately before a persistent-state mutation.
+func Mut(kind, key string, n int) {
+	if f := mutFn.Load(); f != nil {
+		(*f)(kind, key, n)
+	}
+}
+
+// SetFaultWrite installs a file-write fault injector.
+func SetFaultWrite(f func(path string, p []byte) (int, error, bool)) {
+	if f == nil {
+		faultFn.Store(nil)
+		return
+	}
+	faultFn.Store(&f)
+}
+
+// FaultWrite reports whether the write of p to path must fail: handled=true means "write only
+// the first n bytes and return err".
+func FaultWrite(path string, p []byte) (n int, err error, handled bool) {
+	if f := faultFn.Load(); f != nil {
+		return (*f)(path, p)
+	}
+	return 0, nil, false
+}
+
+// SetDiskFree installs an override for the free space reported for a storage root.
+func SetDiskFree(f func(root string, real uint64) uint64) {
+	if f == nil {
+		freeFn.Store(nil)
+		return
+	}
+	freeFn.Store(&f)
+}
+
+// DiskFree returns the (possibly overridden) free space of root.
+func DiskFree(root string, real uint64) uint64 {
+	if f := freeFn.Load(); f != nil {
+		return (*f)(root, real)
+	}
+	return real
+}
